@@ -163,6 +163,12 @@ func (r *Receiver) registerMsg(ack msgReception, from uint16, msg Message) {
 
 	// Forward only once: when a new voucher completes the set
 	if !alreadyVouched && len(r.reception[ack].idSet) == r.N-1 {
+		if r.reception[ack].m == nil {
+			// Can only happen if the acknowledgements are about a sender that isn't one of the N parties
+			r.Logger.Warnf("Collected %d acknowledgements on {sender: %d, round: %d} without having received the message itself, not forwarding it",
+				r.N-1, ack.sender, ack.msgRound)
+			return
+		}
 		r.Logger.Debugf("Collected enough acknowledgements (from %v) on {sender: %d, digest: %s, round: %d}",
 			r.reception[ack].idSet, ack.sender, hex.EncodeToString(prefix([]byte(ack.digest), 8)), ack.msgRound)
 		r.ForwardToBackend(r.reception[ack].m, ack.sender)
